@@ -4,11 +4,13 @@ Model: Cache.tla accounting part (RFC 3550 counters, loss bitmap, the receive lo
 from rtpreader.go) against N1-N4, S1-S3; steady streams exhaustively (N4), lossy/late/restart histories
 breadth-first under a time budget; the faithful switch re-finds the repaired finding F20.
 Conformance: real Store/BitmapGet/Expect/GetStats/ToBitmap on TLC-simulated and seeded histories at the real
-constants, validated by Trace_Cache.  readLoop/nackWriter themselves read from a pion TrackRemote and are not
-driven here (their arithmetic is the spec's ReadLoopStep, executed by the driver)."""
+constants, validated by Trace_Cache.  End to end: a scripted pion publisher (never-sent gaps, held-and-late packets, duplicates, wrap) feeds
+the REAL server; hooks at sendNACK (readLoop) and sendNACKs (nackWriter) log, at the instant a NACK goes upstream,
+whether the cache holds the packet and whether it is at or beyond the newest; a subscriber injects NACKs for held
+packets that then arrive before nackWriter wakes; Trace_Nack judges N1-N4 on the real loops."""
 import shutil
 import common as C
-import cache
+import cache, nacke2e
 
 PID = "C06"
 
@@ -24,8 +26,13 @@ def run(tier, replay=None):
         rep.model("MC_Cache_F20.cfg (faithful pre-fix switch; must violate)", r)
         if not r.violated:
             raise C.Inconclusive("model no longer reproduces F20 with the fix switched off")
+        r = C.tlc(w, "MC_Cache.tla", "MC_Cache_F26.cfg", workers=4, timeout=600)
+        rep.model("MC_Cache_F26.cfg (faithful pre-fix switch; must violate)", r)
+        if not r.violated:
+            raise C.Inconclusive("model no longer reproduces F26 with the fix switched off")
         cache.drive_and_validate(rep, w, tier, PID, replay)
-        rep.assumptions += ["the receive loop's NACK arithmetic is executed by the driver as transcribed in the spec (ReadLoopStep); rtpreader.go's own loop is not driven",
+        nacke2e.run(rep, w, tier, PID, replay)
+        rep.assumptions += ["API tier: the receive loop's NACK arithmetic is executed by the driver as transcribed in the spec (ReadLoopStep); end-to-end tier: the real readLoop / nackWriter, observed at their two sending points",
                             "N4 is judged only on steady streams (arrival offsets 1 or 2) with the loop run after every packet"]
         return rep.finish()
     finally:
